@@ -484,6 +484,75 @@ def rule_bn_fusing(rep, repo):
                     loc=loc, instance=cfg)
 
 
+def rule_fused_export(rep, repo):
+  """R13: the fused terms inside the export.  model_save_quantized_weights is
+  interpreted on a convolution (kernel and bias quantizers, float weights)
+  followed by a fusable batch normalisation, with STATEFUL layer stand-ins
+  (get_weights returns what set_weights stored last): the exported
+  fused_bias is the batch-norm algebra on the QUANTIZED bias - the weights
+  the layer holds after the export and the dictionary describes - for a
+  first export and for a second one."""
+  um = repo.module(UM)
+  fn = um.functions.get("model_save_quantized_weights")
+  unit = "%s::model_save_quantized_weights" % um.relpath
+  loc = um.loc(fn)
+  fw = Fwd()
+  g, b, m, v, eps = (NF.sym(n) for n in ("gamma", "beta", "mean", "var",
+                                         "eps"))
+  for cls, use_bias in (("QConv2D", True), ("QDepthwiseConv2D", True),
+                        ("QConv2D", False)):
+    store = {"conv": [S("kernel")] + ([S("pbias")] if use_bias else [])}
+    qs = [qmock("k"), qmock("b")] if use_bias else [qmock("k")]
+    conv = Mock("conv", {
+        "name": "conv", "__classes__": {cls},
+        "__class__": Mock("class", {"__name__": cls}),
+        "get_quantizers": lambda pe, a, k, qs=qs: list(qs),
+        "get_weights": lambda pe, a, k: list(store["conv"]),
+        "set_weights": lambda pe, a, k: store.__setitem__("conv",
+                                                          list(a[0])),
+        "use_bias": use_bias})
+    bn = Mock("bn", {
+        "name": "bn", "__classes__": {"QBatchNormalization"},
+        "__class__": Mock("class", {"__name__": "QBatchNormalization"}),
+        "scale": True, "center": True, "epsilon": Tensor(("sym", "eps"), ()),
+        "quantizers": [None, None, None, None, None],
+        "get_quantizers": lambda pe, a, k: [None, None, None, None],
+        "get_weights": lambda pe, a, k: [S("gamma"), S("beta"), S("mean"),
+                                         S("var")],
+        "set_weights": lambda pe, a, k: None,
+        "gamma_quantizer_internal": None, "beta_quantizer_internal": None,
+        "mean_quantizer_internal": None, "variance_quantizer_internal": None,
+        "inverse_quantizer_internal": None})
+    cfg = "%s(use_bias=%s) followed by a fusable QBatchNormalization" % (
+        cls, use_bias)
+    inv = g * mk_app("rsqrt", [v + eps])
+    qb = mk_app("Q_b", [NF.sym("pbias")]) if use_bias else NF.const(0)
+    for nth in ("first", "second"):
+      try:
+        out = run_export(repo, [conv, bn], fusing=({"conv": "bn"}, {"bn"}))
+      except PyRaise as e:
+        rep.fail("R13", unit, "export-raises", "%s: raises %s" % (cfg, e),
+                 loc=loc, instance=cfg)
+        break
+      ent = out.get("conv", {}) if isinstance(out, dict) else {}
+      fb = nf_of(ent.get("fused_bias"), fw)
+      if nth == "second" and use_bias:
+        # the stored bias is Q_b(pbias); a second export quantizes it again
+        qb = mk_app("Q_b", [mk_app("Q_b", [NF.sym("pbias")])])
+      want = inv * qb + b - inv * m
+      rep.check(fb == want, "R13", unit, "fused_bias-not-on-exported-bias",
+                "%s, %s export: fused_bias = %s; the batch-norm algebra on "
+                "the bias the layer holds after the export is %s" % (
+                    cfg, nth, show(fb) if fb is not None else None,
+                    show(want)), loc=loc, instance="%s/%s export" % (cfg,
+                                                                    nth),
+                observed=show(fb) if fb is not None else "None")
+      rep.check(nf_of(ent.get("bn_inv"), fw) == inv, "R13", unit,
+                "bn_inv-in-export",
+                "%s, %s export: bn_inv = %r" % (cfg, nth, ent.get("bn_inv")),
+                loc=loc, instance="%s/%s export" % (cfg, nth))
+
+
 # Keras weight order of the parent classes (trusted table, DESIGN 2.6)
 WEIGHT_ORDER = {
     "Dense": ["kernel", "bias?"],
@@ -1210,6 +1279,8 @@ def run(rep, repo, tier):
   rep.require_instances("R12", 16)
   rule_po2_export_values(rep, repo, tier)
   rule_bn_fusing(rep, repo)
+  rule_fused_export(rep, repo)
+  rep.require_instances("R13", 10)
   rule_pairing(rep, repo)
   rule_frozen_scale(rep, repo)
   rule_fusing_pairs(rep, repo)
